@@ -584,7 +584,7 @@ class _CryptConfig:
 
         # if no record for (scheme, category),
         # use record for (scheme, None), and cache result.
-        if category:
+        if category is not None:
             try:
                 cache = self._records
                 record = cache[scheme, category] = cache[scheme, None]
